@@ -4,5 +4,5 @@ P="$1"; ID="$2"; TIER="${3:-quick}"
 if ! git -C /repo apply --check "$P" 2>/dev/null; then echo "PATCH DOES NOT APPLY: $P"; exit 3; fi
 git -C /repo apply "$P"
 ./check "$ID" "$TIER"; rc=$?
-git -C /repo checkout -- . ; git -C /repo clean -fdq
+git -C /repo apply -R "$P" || echo "WARNING: could not revert $P"
 echo "exit=$rc"
